@@ -1,7 +1,7 @@
 --------------------------- MODULE SubmitValidate ---------------------------
 (* C08: what the jobs/create (and create-fast / update-fast) endpoints may accept.
 
-   World: a batch whose update 1 is committed and holds jobs 1..E; update 2 is open with the reserved job-id range
+   World: a batch whose update 1 is committed and holds jobs 1..E (E = 0: there is no earlier update); the next update is open with the reserved job-id range
    S..S+N-1 (S = E+1) and may already hold some of its jobs.  A request is a bunch of job specs with contiguous
    in-update ids (the schema validator enforces contiguity); each job names absolute parent ids and in-update parent ids.
 
@@ -10,7 +10,7 @@
    rejected and must leave the tables unchanged.                                                                  *)
 EXTENDS Naturals, Integers, FiniteSets, Sequences, SequencesExt, TLC, Json, IOUtils
 
-E == 2          \* jobs of the committed update 1
+E == atoi(IOEnv.SV_E)   \* jobs of the committed update 1 (0: the open update is the batch's first)
 N == 2          \* declared size of update 2
 S == E + 1      \* its start job id
 
@@ -47,6 +47,9 @@ Ok(c) ==
   IF Accept(b) /\ Twice(b) /\ ~c.accepted THEN c.unchanged
   ELSE IF Accept(b)
   THEN /\ c.accepted
+       \* "can always finish": once the rest of the update is submitted and committed and every job that becomes Ready is run to
+       \* Success, every job of the batch reaches a terminal state and the batch is complete
+       /\ c.fin
        /\ ToSet(c.rows) = { AbsId(b[k]) : k \in 1..Len(b) }
        /\ ToSet(c.edges) = UNION { { <<AbsId(b[k]), p>> : p \in Parents(b[k]) } : k \in 1..Len(b) }
   ELSE ~c.accepted /\ c.unchanged
